@@ -84,7 +84,8 @@ def gen_ruler(rng: random.Random) -> dict:
     # sparse observation: the reporting calls (get_all_rules / get_active_rules) are themselves calls of the history - a
     # harness that asks after every step would flush any memo behind them; here they happen only at 'get' steps and
     # after failed calls
-    return {"kind": "ruler", "ops": ops, "shared_fns": share, "sparse": rng.random() < 0.35}
+    return {"kind": "ruler", "ops": ops, "shared_fns": share, "sparse": rng.random() < 0.35,
+            "scribble": rng.random() < 0.25}
 
 
 class _Model:
@@ -240,6 +241,15 @@ def run_ruler(rec: dict, res: RunResult) -> None:
             break
         if kind == "get":
             coherence(op[1], k)
+            if rec.get("scribble"):
+                # what the reporting calls hand out belongs to the caller: emptying it must not reach anything
+                # (not getRules: handing out the compiled chain itself is the documented upstream design)
+                for lst in (ruler.get_active_rules(), ruler.get_all_rules()):
+                    if isinstance(lst, list):
+                        lst.clear()
+                res.count("caller_emptied_returned_lists")
+                if not res.violation:
+                    coherence(op[1], k)
             continue
         if compiled:
             res.nontrivial = True
@@ -308,8 +318,17 @@ def run_ruler(rec: dict, res: RunResult) -> None:
             res.count("duplicate_name_ops")
             # only bookkeeping-free sanity in duplicate mode (set semantics are ambiguous there)
             if kind in ("push", "before", "after") and raised is None:
-                if sorted(after_all) != sorted(before_all + [op[1] if kind == "push" else op[2]]):
-                    res.fail("SET_SEMANTICS", f"op {k} {op}: all rules {before_all} -> {after_all}", last_mut)
+                # registration ORDER is well defined with duplicate names too: the anchor is the first rule of that name
+                if kind == "push":
+                    want = before_all + [op[1]]
+                else:
+                    i = before_all.index(op[1]) + (kind == "after")
+                    want = before_all[:i] + [op[2]] + before_all[i:]
+                if after_all != want:
+                    res.fail("SET_SEMANTICS", f"op {k} {op}: all rules {before_all} -> {after_all}, expected {want} "
+                                              f"(anchor = first rule named {op[1]!r})", last_mut)
+            elif kind in ("before", "after") and raised is not None and op[1] in before_all:
+                res.fail("UNEXPECTED_EXCEPTION", f"op {k} {op}: raised {type(raised).__name__}: {raised}", last_mut)
             elif kind in ("enable", "disable", "enableOnly", "at") and after_all != before_all:
                 res.fail("SET_SEMANTICS", f"op {k} {op}: changed the rule list {before_all} -> {after_all}", last_mut)
             continue
@@ -600,7 +619,8 @@ def gen_facade(rng: random.Random) -> dict:
     for _ in range(n):
         ops.append(one())
     probes = [docgen.document(rng, 3), rng.choice(PLUGIN_DOCS), rng.choice(PLUGIN_DOCS)]
-    return {"kind": "facade", "cfg": cfg, "ops": ops, "probes": probes, "sparse": rng.random() < 0.35}
+    return {"kind": "facade", "cfg": cfg, "ops": ops, "probes": probes, "sparse": rng.random() < 0.35,
+            "scribble": rng.random() < 0.25}
 
 
 def _predict_many(allr, active, names, value, ignore, only=False):
@@ -641,8 +661,17 @@ def run_facade(rec: dict, res: RunResult) -> None:
         return ({"normalize", "block", "inline", "text_join"} <= set(act["core"]) and "paragraph" in act["block"]
                 and "text" in act["inline"])
 
+    def scribble():
+        if rec.get("scribble"):
+            for d in (md.get_active_rules(), md.get_all_rules()):
+                for lst in d.values():
+                    lst.clear()
+                d.clear()
+            res.count("caller_emptied_returned_lists")
+
     def check(which, chain, k):
         nonlocal compiled
+        scribble()
         r = _ruler(md, which)
         main = list(r.getRules(""))
         applied = list(r.getRules(chain))
@@ -904,7 +933,7 @@ class C11(Engine):
                   "harness_supplied": ["synthetic rule functions", "pass-through recording wrappers around built-in rules",
                                        "marker plugins (@@ block, @ inline, core, inline2)"],
                   "stub": [], "simulated": ["the history of calls incl. the calls that raise half-way"]}
-    expected_probes = ["steps_without_observation", "same_function_registered_under_two_names",
+    expected_probes = ["caller_emptied_returned_lists", "steps_without_observation", "same_function_registered_under_two_names",
                        "failed_call_after_compiled_cache", "enableOnly_failed_midway", "duplicate_name_ops",
                        "at_changed_alt", "configure_failed_midway", "facade_missed_names"]
 
